@@ -8,6 +8,7 @@ RULE = ("histories: every sequence of up to 2 (thorough 3) runs over 21 scripts 
         "Invoker callback, deep recursion) x {nothing, Clear, SetBytecode, Clear+SetBytecode} x 14 residue-sensitive probes (incl. runs with nil globals: what a run stored in the globals the VM provided is gone in the next run; incl. parameters that must be undefined after a run that had arguments); TLC checks "
         "NoResidueRead on the component model and exports each history; the harness replays it on one real VM and compares the "
         "re-run of the last script and the probe with a new VM, and the canonical dump of every Bytecode before and after; "
+        "histories with a panicking script also on a VM without panic recovery (the host recovers): every later operation returns, the probe equals a new VM's; "
         "non-trivial = histories whose last run did not end by a plain return")
 
 def run(ctx):
